@@ -173,3 +173,35 @@ def draw_many(strategy, n, seed, fn):
 
 def rng(seed, *salt):
     return random.Random("%d|%s" % (seed, "|".join(map(str, salt))))
+
+
+class TapeRNG:
+    """records every draw of a history generator (record mode) or feeds a recorded tape back (replay mode): a history that is
+    generated on the fly from the evolving state becomes exactly replayable"""
+
+    def __init__(self, base=None, tape=None):
+        self.base = base
+        self.replaying = tape is not None
+        self.tape = list(tape) if tape is not None else []
+        self.pos = 0
+
+    def _draw(self, fn):
+        if self.replaying:
+            if self.pos >= len(self.tape):
+                raise IndexError("replay tape exhausted")
+            v = self.tape[self.pos]
+            self.pos += 1
+            return v
+        v = fn()
+        self.tape.append(v)
+        return v
+
+    def random(self):
+        return self._draw(self.base.random if self.base else None)
+
+    def randrange(self, a, b=None):
+        lo, hi = (0, a) if b is None else (a, b)
+        return self._draw(lambda: self.base.randrange(lo, hi))
+
+    def choice(self, seq):
+        return seq[self._draw(lambda: self.base.randrange(len(seq)))]
